@@ -309,3 +309,591 @@ Proof.
   - apply filter_unnamed_remove. cbn; auto.
   - reflexivity.
 Qed.
+
+(* ---- strip -------------------------------------------------------------------------------------- *)
+Lemma filter_idem {A} (f : A -> bool) l : filter f (filter f l) = filter f l.
+Proof. induction l as [|a l IH]; cbn; [reflexivity|]. destruct (f a) eqn:E; cbn; rewrite ?E, IH; reflexivity. Qed.
+
+Lemma strip_keeps_exactly o e : le_extras (cmd_strip o e) = filter (kept_by o) (le_extras e).
+Proof. reflexivity. Qed.
+Lemma strip_attrs o e :
+  le_name (cmd_strip o e) = le_name e /\ le_kind (cmd_strip o e) = le_kind e /\
+  le_hdr (cmd_strip o e) = le_hdr e /\ le_content (cmd_strip o e) = le_content e /\
+  (le_ctime (cmd_strip o e), le_mtime (cmd_strip o e), le_atime (cmd_strip o e))
+    = (if keep_time o then (le_ctime e, le_mtime e, le_atime e) else (None, None, None)) /\
+  le_perm (cmd_strip o e) = (if keep_perm o then le_perm e else None) /\
+  le_xattrs (cmd_strip o e) = (if keep_xattr o then le_xattrs e else []).
+Proof. cbn. destruct (keep_time o); repeat split. Qed.
+Lemma strip_idem o e : cmd_strip o (cmd_strip o e) = cmd_strip o e.
+Proof.
+  unfold cmd_strip. cbn. rewrite filter_idem.
+  destruct (keep_time o), (keep_perm o), (keep_xattr o); reflexivity.
+Qed.
+
+(* ---- chmod / chown idempotence ------------------------------------------------------------------- *)
+Lemma chmod_idem m e : cmd_chmod m (cmd_chmod m e) = cmd_chmod m e.
+Proof.
+  unfold cmd_chmod, with_perm, with_meta. cbn. destruct (le_perm e) as [p|]; cbn; [|reflexivity].
+  unfold perm_with_mode. cbn. unfold apply_mode. now rewrite mode_apply_idem.
+Qed.
+Lemma chown_idem u g e : cmd_chown u g (cmd_chown u g e) = cmd_chown u g e.
+Proof.
+  unfold cmd_chown, with_perm, with_meta. cbn. destruct (le_perm e) as [p|]; cbn; [|reflexivity].
+  destruct u as [[? ?]|], g as [[? ?]|]; reflexivity.
+Qed.
+Lemma cmd_xattr_eq s r e : cmd_xattr s r e = with_xattrs e (xattr_step s r (im_collect (le_xattrs e))).
+Proof. destruct s as [[? ?]|], r; reflexivity. Qed.
+Lemma xattr_idem s r e : cmd_xattr s r (cmd_xattr s r e) = cmd_xattr s r e.
+Proof.
+  rewrite (cmd_xattr_eq s r e). set (X := xattr_step s r (im_collect (le_xattrs e))).
+  rewrite cmd_xattr_eq. cbn [le_xattrs with_xattrs].
+  assert (HX : xattr_step s r (im_collect X) = X).
+  { unfold X. rewrite im_collect_fix by (apply xattr_step_nodup, im_collect_nodup). apply xattr_step_idem. }
+  rewrite HX. reflexivity.
+Qed.
+
+(* ---- ACL chunks ------------------------------------------------------------------------------------ *)
+Lemma filter_none {A} (f : A -> bool) l : (forall x, In x l -> f x = false) -> filter f l = [].
+Proof.
+  induction l as [|a l IH]; cbn; intros H; [reflexivity|].
+  rewrite (H a) by auto. apply IH. intros x Hx. apply H. auto.
+Qed.
+Lemma facl_refl : bytes_eqb FACL FACL = true.  Proof. vm_compute. reflexivity. Qed.
+Lemma face_refl : bytes_eqb FACE FACE = true.  Proof. vm_compute. reflexivity. Qed.
+Lemma is_acl_facl d : is_acl_chunk (mk FACL d) = true.
+Proof. unfold is_acl_chunk, ty_is, mk. cbv [cty]. now rewrite facl_refl. Qed.
+Lemma is_acl_face d : is_acl_chunk (mk FACE d) = true.
+Proof. unfold is_acl_chunk, ty_is, mk. cbv [cty]. rewrite face_refl. apply orb_true_r. Qed.
+Lemma acl_chunks_in m c : In c (acl_chunks m) -> is_acl_chunk c = true.
+Proof.
+  unfold acl_chunks. rewrite in_concat. intros (l & Hl & Hc). apply in_map_iff in Hl.
+  destruct Hl as ([p aces] & <- & _). cbv beta in Hc. apply in_inv in Hc.
+  destruct Hc as [<-|Hc]; [apply is_acl_facl|].
+  apply in_map_iff in Hc. destruct Hc as (a & <- & _). apply is_acl_face.
+Qed.
+Lemma acl_chunks_all_acl m : filter (fun c => negb (is_acl_chunk c)) (acl_chunks m) = [].
+Proof. apply filter_none. intros c Hc. now rewrite (acl_chunks_in m c Hc). Qed.
+Lemma non_acl_rebuilt m cs : non_acl (acl_chunks m ++ non_acl cs) = non_acl cs.
+Proof. unfold non_acl. now rewrite filter_app, acl_chunks_all_acl, filter_idem. Qed.
+
+(* acl set and migrate keep every other attribute, and every extra chunk that is not an ACL chunk,
+   in order *)
+Lemma acl_attrs md rm e :
+  same_but_extras e (cmd_acl md rm e) /\ non_acl (le_extras (cmd_acl md rm e)) = non_acl (le_extras e).
+Proof.
+  unfold cmd_acl, same_but_extras. destruct (acl_parse (le_extras e)) as [m| |]; try (repeat split; fail).
+  destruct (acl_skip md m); [repeat split|]. cbn. repeat split. apply non_acl_rebuilt.
+Qed.
+Lemma migrate_attrs e e' : cmd_migrate e = Ok e' ->
+  same_but_extras e e' /\ non_acl (le_extras e') = non_acl (le_extras e).
+Proof.
+  unfold cmd_migrate, same_but_extras. destruct (acl_parse (le_extras e)) as [m| |]; try discriminate.
+  intros H. inversion H. cbn. repeat split. apply non_acl_rebuilt.
+Qed.
+
+Lemma owner_eqb_eq a b : owner_eqb a b = true <-> a = b.
+Proof.
+  destruct a, b; cbn; try (split; [discriminate|congruence]); try tauto.
+  - rewrite bytes_eqb_eq. split; congruence.
+  - rewrite bytes_eqb_eq. split; congruence.
+Qed.
+Lemma spec_match_self s : spec_match s (spec_ace s) = true.
+Proof.
+  unfold spec_match. apply andb_true_iff. split.
+  - unfold spec_ace. cbv [a_flags]. destruct (as_default s); reflexivity.
+  - apply owner_eqb_eq. reflexivity.
+Qed.
+(* replacing the permission field does not change which specs match *)
+Definition set_perm (a : ace) (p : N) : ace :=
+  {| a_flags := a_flags a; a_owner := a_owner a; a_allow := a_allow a; a_perm := p |}.
+Lemma spec_match_set_perm s a p : spec_match s (set_perm a p) = spec_match s a.
+Proof. reflexivity. Qed.
+Lemma acl_modify_cons s a l :
+  acl_modify s (a :: l) = if spec_match s a then set_perm a (a_perm (spec_ace s)) :: l else a :: acl_modify s l.
+Proof. reflexivity. Qed.
+(* after -m the list holds an entry of the named owner with exactly the named permissions *)
+Lemma acl_modify_effect s l :
+  exists a, In a (acl_modify s l) /\ spec_match s a = true /\ a_perm a = a_perm (spec_ace s).
+Proof.
+  induction l as [|a l IH].
+  - exists (spec_ace s). split; [left; reflexivity|]. split; [apply spec_match_self|reflexivity].
+  - rewrite acl_modify_cons. destruct (spec_match s a) eqn:E.
+    + exists (set_perm a (a_perm (spec_ace s))). split; [left; reflexivity|].
+      split; [now rewrite spec_match_set_perm|reflexivity].
+    + destruct IH as (b & Hin & Hm & Hp). exists b. split; [right; exact Hin|]. split; assumption.
+Qed.
+(* ... and every entry of another owner is where and what it was *)
+Lemma acl_modify_frame s l :
+  filter (fun a => negb (spec_match s a)) (acl_modify s l) = filter (fun a => negb (spec_match s a)) l.
+Proof.
+  induction l as [|a l IH].
+  - change (acl_modify s []) with [spec_ace s]. cbn [filter]. now rewrite spec_match_self.
+  - rewrite acl_modify_cons. destruct (spec_match s a) eqn:E; cbn [filter].
+    + rewrite spec_match_set_perm, E. reflexivity.
+    + rewrite E. cbn [negb]. now rewrite IH.
+Qed.
+Lemma acl_remove_effect r l a : In a (filter (fun a => negb (spec_match r a)) l) -> spec_match r a = false.
+Proof. intros H. apply filter_In in H. now apply negb_true_iff. Qed.
+
+(* ---- no command changes a name; only delete drops entries ------------------------------------------- *)
+Lemma cmd_entry_name c e e' : cmd_entry c e = Ok (Some e') -> le_name e' = le_name e.
+Proof.
+  destruct c; cbn [cmd_entry]; intros H.
+  - inversion H. reflexivity.
+  - inversion H. reflexivity.
+  - inversion H. apply (xattr_attrs set remove e).
+  - inversion H. apply (acl_attrs modify remove e).
+  - inversion H. reflexivity.
+  - inv_bind H. inversion Hk; subst. apply (migrate_attrs _ _ Hb).
+  - discriminate.
+Qed.
+Lemma cmd_entry_some c e o : c <> CDelete -> cmd_entry c e = Ok o -> exists e', o = Some e'.
+Proof.
+  destruct c; cbn [cmd_entry]; intros NE H; try (inversion H; eauto; fail).
+  - inv_bind H. inversion Hk. eauto.
+  - congruence.
+Qed.
+
+Section Selection.
+Variable sel : bytes -> bool.          (* GlobPatterns::matches_any on the entry name *)
+
+Definition touched (c : cmd) (e : lentry) : bool := selects_all c || sel (le_name e).
+(* what one step of the rewrite does to one entry *)
+Definition step_rel (c : cmd) (e e' : lentry) : Prop :=
+  if touched c e then cmd_entry c e = Ok (Some e') else e' = e.
+
+Lemma transformer_unfold c e :
+  cmd_transformer c sel e = if touched c e then cmd_entry c e else Ok (Some e).
+Proof. reflexivity. Qed.
+
+Lemma map_entries_nondelete c : c <> CDelete -> forall es es',
+  map_entries (cmd_transformer c sel) es = Ok es' -> Forall2 (step_rel c) es es'.
+Proof.
+  intros NE. induction es as [|e r IH]; intros es' H.
+  - inversion H. constructor.
+  - apply map_entries_cons in H. destruct H as (o & r' & Hf & Hr & ->).
+    rewrite transformer_unfold in Hf. unfold step_rel at 1.
+    destruct (touched c e) eqn:T.
+    + destruct (cmd_entry_some c e o NE Hf) as (e' & ->). cbn [olist app].
+      constructor; [unfold step_rel; now rewrite T | auto].
+    + inversion Hf; subst o. cbn [olist app]. constructor; [unfold step_rel; now rewrite T | auto].
+Qed.
+Lemma map_entries_delete : forall es es',
+  map_entries (cmd_transformer CDelete sel) es = Ok es' ->
+  es' = filter (fun e => negb (sel (le_name e))) es.
+Proof.
+  induction es as [|e r IH]; intros es' H.
+  - inversion H. reflexivity.
+  - apply map_entries_cons in H. destruct H as (o & r' & Hf & Hr & ->).
+    rewrite transformer_unfold in Hf. unfold touched in Hf. cbn [selects_all orb filter] in *.
+    destruct (sel (le_name e)); cbn [negb]; inversion Hf; subst o; cbn [olist app]; now rewrite (IH _ Hr).
+Qed.
+(* the untouched entries are the same sequence before and after, for every command *)
+Lemma map_entries_frame c : forall es es',
+  map_entries (cmd_transformer c sel) es = Ok es' ->
+  filter (fun e => negb (touched c e)) es' = filter (fun e => negb (touched c e)) es.
+Proof.
+  induction es as [|e r IH]; intros es' H.
+  - inversion H. reflexivity.
+  - apply map_entries_cons in H. destruct H as (o & r' & Hf & Hr & ->).
+    rewrite transformer_unfold in Hf. cbn [filter]. destruct (touched c e) eqn:T; cbn [negb].
+    + destruct o as [e'|]; cbn [olist app]; [|auto].
+      cbn [filter]. assert (T' : touched c e' = true).
+      { unfold touched in *. now rewrite (cmd_entry_name _ _ _ Hf). }
+      rewrite T'. cbn [negb]. auto.
+    + inversion Hf; subst o. cbn [olist app filter]. rewrite T. cbn [negb]. f_equal. auto.
+Qed.
+
+Lemma run_cmd_cases keep pw c nf a a' : run_cmd keep pw c nf sel a = Ok a' ->
+  (needs_files c = true /\ nf = 0 /\ a' = a) \/
+  (needs_files c && (nf =? 0) = false /\ transform keep pw (cmd_transformer c sel) a = Ok a').
+Proof.
+  unfold run_cmd. destruct (needs_files c && (nf =? 0)) eqn:E; intros H.
+  - left. apply andb_true_iff in E. destruct E as [E1 E2]. apply N.eqb_eq in E2. inversion H. auto.
+  - right. auto.
+Qed.
+
+Lemma Forall2_imp {A B} (R S : A -> B -> Prop) l l' : (forall a b, R a b -> S a b) -> Forall2 R l l' -> Forall2 S l l'.
+Proof. intros H F. induction F; constructor; auto. Qed.
+Lemma Forall2_refl_on {A} (R : A -> A -> Prop) l : (forall x, In x l -> R x x) -> Forall2 R l l.
+Proof. induction l; intros H; constructor; [apply H; left; reflexivity | apply IHl; intros; apply H; right; assumption]. Qed.
+
+(* FRAME: position by position, the name is kept and an entry the patterns do not select is
+   returned unchanged in every attribute (c other than delete) *)
+Theorem frame_entries keep pw c nf a a' :
+  run_cmd keep pw c nf sel a = Ok a' -> c <> CDelete ->
+  Forall2 (fun e e' => le_name e' = le_name e /\ (touched c e = false -> e' = e)) (entries a) (entries a').
+Proof.
+  intros H NE. destruct (run_cmd_cases _ _ _ _ _ _ H) as [(_ & _ & ->)|(_ & Ht)].
+  - apply Forall2_refl_on. auto.
+  - apply transform_entries in Ht. apply (map_entries_nondelete c NE) in Ht.
+    eapply Forall2_imp; [|exact Ht]. intros e e' Hs. unfold step_rel in Hs.
+    destruct (touched c e); [split; [eapply cmd_entry_name; eauto|discriminate] | subst; auto].
+Qed.
+(* FRAME, every command: the entries the command does not touch form the same sequence before
+   and after (same relative order, every attribute equal) *)
+Theorem frame_untouched keep pw c nf a a' :
+  run_cmd keep pw c nf sel a = Ok a' ->
+  filter (fun e => negb (touched c e)) (entries a') = filter (fun e => negb (touched c e)) (entries a).
+Proof.
+  intros H. destruct (run_cmd_cases _ _ _ _ _ _ H) as [(_ & _ & ->)|(_ & Ht)]; [reflexivity|].
+  apply transform_entries in Ht. now apply map_entries_frame.
+Qed.
+(* EFFECT: a selected entry is replaced by the command's transformer applied to it (whose
+   attribute-wise meaning is chmod_attrs, chown_attrs, xattr_*, acl_*, strip_*, migrate_attrs).
+   An empty pattern list matches nothing (GlobSet::is_match on an empty set). *)
+Theorem effect_entries keep pw c nf a a' :
+  run_cmd keep pw c nf sel a = Ok a' -> c <> CDelete -> (nf = 0 -> forall n, sel n = false) ->
+  Forall2 (step_rel c) (entries a) (entries a').
+Proof.
+  intros H NE Hempty. destruct (run_cmd_cases _ _ _ _ _ _ H) as [(Hn & Hz & ->)|(_ & Ht)].
+  - apply Forall2_refl_on. intros e _. unfold step_rel, touched. rewrite (Hempty Hz).
+    destruct c; try discriminate; reflexivity.
+  - apply transform_entries in Ht. now apply map_entries_nondelete.
+Qed.
+(* delete: exactly the selected entries disappear; the survivors are unchanged and in order *)
+Theorem delete_exact keep pw nf a a' :
+  run_cmd keep pw CDelete nf sel a = Ok a' ->
+  entries a' = filter (fun e => negb (sel (le_name e))) (entries a).
+Proof.
+  intros H. destruct (run_cmd_cases _ _ _ _ _ _ H) as [(Hn & _)|(_ & Ht)]; [discriminate|].
+  apply transform_entries in Ht. now apply map_entries_delete.
+Qed.
+End Selection.
+
+(* ---- shape: what the two strategies do to the solid structure ------------------------------------------ *)
+Definition solid_blocks (a : archive) : list (shdr * list chunk * list lentry) :=
+  concat (map (fun it => match it with Solid h x es => [(h, x, es)] | Normal _ => [] end) a).
+Lemma solid_blocks_app a b : solid_blocks (a ++ b) = solid_blocks a ++ solid_blocks b.
+Proof. unfold solid_blocks. now rewrite map_app, concat_app. Qed.
+Lemma solid_blocks_normals es : solid_blocks (map Normal es) = [].
+Proof. induction es as [|e r IH]; [reflexivity|exact IH]. Qed.
+
+(* keep-solid: the same solid entries in the same order, each with its header and its own extra
+   chunks, holding the transformed inner entries in their order *)
+Theorem keep_solid_shape pw f : forall a a', transform true pw f a = Ok a' ->
+  Forall2 (fun b b' => fst b' = fst b /\ map_entries f (snd b) = Ok (snd b')) (solid_blocks a) (solid_blocks a').
+Proof.
+  induction a as [|it a IH]; intros a' H.
+  - inversion H. constructor.
+  - cbn [transform] in H. inv_bind H. inv_bind Hk. inversion Hk0; subst a'.
+    rewrite solid_blocks_app. specialize (IH _ Hb0).
+    destruct it as [e|h x es]; cbn [transform_item] in Hb.
+    + inv_bind Hb. assert (solid_blocks v = []) as -> by (destruct v1; inversion Hk; reflexivity). exact IH.
+    + destruct (negb (sh_cipher h =? 0) && negb pw); [discriminate|]. inv_bind Hb. inversion Hk; subst v.
+      change (solid_blocks (Solid h x es :: a)) with ((h, x, es) :: solid_blocks a).
+      change (solid_blocks [Solid h x v1]) with [(h, x, v1)]. cbn [app]. constructor; [split; [reflexivity|exact Hb1]|exact IH].
+Qed.
+(* unsolid: no solid entry is left (their inner entries stand in place, transform_entries) *)
+Theorem unsolid_shape pw f : forall a a', transform false pw f a = Ok a' -> solid_blocks a' = [].
+Proof.
+  induction a as [|it a IH]; intros a' H.
+  - inversion H. reflexivity.
+  - cbn [transform] in H. inv_bind H. inv_bind Hk. inversion Hk0; subst a'.
+    rewrite solid_blocks_app, (IH _ Hb0), app_nil_r.
+    destruct it as [e|h x es]; cbn [transform_item] in Hb.
+    + inv_bind Hb. destruct v1; inversion Hk; reflexivity.
+    + destruct (negb (sh_cipher h =? 0) && negb pw); [discriminate|]. inv_bind Hb. inversion Hk.
+      apply solid_blocks_normals.
+Qed.
+
+(* ---- idempotence ------------------------------------------------------------------------------------------ *)
+(* the command, applied to its own result on one entry, returns that result *)
+Definition entry_idem (c : cmd) (e : lentry) : Prop :=
+  forall e', cmd_entry c e = Ok (Some e') -> cmd_entry c e' = Ok (Some e').
+
+Lemma entry_idem_chmod m e : entry_idem (CChmod m) e.
+Proof. intros e' H. cbn [cmd_entry] in *. inversion H. now rewrite chmod_idem. Qed.
+Lemma entry_idem_chown u g e : entry_idem (CChown u g) e.
+Proof. intros e' H. cbn [cmd_entry] in *. inversion H. now rewrite chown_idem. Qed.
+Lemma entry_idem_xattr s r e : entry_idem (CXattr s r) e.
+Proof. intros e' H. cbn [cmd_entry] in *. inversion H. now rewrite xattr_idem. Qed.
+Lemma entry_idem_strip o e : entry_idem (CStrip o) e.
+Proof. intros e' H. cbn [cmd_entry] in *. inversion H. now rewrite strip_idem. Qed.
+Lemma entry_idem_delete e : entry_idem CDelete e.
+Proof. intros e' H. discriminate. Qed.
+
+Lemma with_extras_twice e x y : with_extras (with_extras e x) y = with_extras e y.
+Proof. reflexivity. Qed.
+(* migrate is idempotent on an entry whose regrouped ACL chunks read back as the same map
+   (the print/parse round trip of the ACE text codec, C15) *)
+Lemma entry_idem_migrate e :
+  (forall m, acl_parse (le_extras e) = Ok m -> acl_parse (acl_chunks m ++ non_acl (le_extras e)) = Ok m) ->
+  entry_idem CMigrate e.
+Proof.
+  intros Hrt e' H. cbn [cmd_entry] in *. inv_bind H. inversion Hk; subst v. clear Hk.
+  unfold cmd_migrate in Hb. destruct (acl_parse (le_extras e)) as [m| |] eqn:P; try discriminate.
+  inversion Hb; subst e'. unfold cmd_migrate. cbn [le_extras with_extras].
+  rewrite (Hrt m eq_refl). rewrite non_acl_rebuilt. cbn [bind]. now rewrite with_extras_twice.
+Qed.
+
+Lemma acl_has_update p f m : acl_has p (acl_update p f m) = true.
+Proof.
+  assert (R : forall q, platform_eqb q q = true) by (intros [| | | | |s]; cbn; auto using bytes_eqb_refl).
+  unfold acl_has. induction m as [|[q l] m IH]; cbn [acl_update existsb fst].
+  - now rewrite R.
+  - destruct (platform_eqb p q) eqn:E; cbn [existsb fst]; rewrite ?E; [reflexivity|]. cbn [orb]. exact IH.
+Qed.
+Lemma acl_update_twice p f g m : acl_update p g (acl_update p f m) = acl_update p (fun l => g (f l)) m.
+Proof.
+  assert (R : forall q, platform_eqb q q = true) by (intros [| | | | |s]; cbn; auto using bytes_eqb_refl).
+  induction m as [|[q l] m IH]; cbn [acl_update].
+  - now rewrite R.
+  - destruct (platform_eqb p q) eqn:E; cbn [acl_update]; rewrite E; [reflexivity|now rewrite IH].
+Qed.
+Lemma acl_update_ext p f g m : (forall l, f l = g l) -> acl_update p f m = acl_update p g m.
+Proof.
+  intros H. induction m as [|[q l] m IH]; cbn [acl_update]; [now rewrite H|].
+  destruct (platform_eqb p q); [now rewrite H|now rewrite IH].
+Qed.
+
+(* acl set, entry level: idempotent when (i) the rewritten ACL chunks read back as the map that was
+   written and (ii) the edit of the general list is itself idempotent *)
+Lemma entry_idem_acl md rm e :
+  (forall m, acl_parse (le_extras e) = Ok m -> acl_skip md m = false ->
+     acl_parse (acl_chunks (acl_update General (acl_edit md rm) m) ++ non_acl (le_extras e))
+     = Ok (acl_update General (acl_edit md rm) m)) ->
+  (forall l, acl_edit md rm (acl_edit md rm l) = acl_edit md rm l) ->
+  entry_idem (CAcl md rm) e.
+Proof.
+  intros Hrt Hed e' H. cbn [cmd_entry] in *. inversion H; subst e'. clear H. f_equal. f_equal.
+  destruct (acl_parse (le_extras e)) as [m| |] eqn:P.
+  - destruct (acl_skip md m) eqn:S.
+    + assert (E : cmd_acl md rm e = e) by (unfold cmd_acl; now rewrite P, S). now rewrite !E.
+    + assert (E : cmd_acl md rm e
+                  = with_extras e (acl_chunks (acl_update General (acl_edit md rm) m) ++ non_acl (le_extras e)))
+        by (unfold cmd_acl; now rewrite P, S).
+      rewrite E. unfold cmd_acl. cbn [le_extras with_extras]. rewrite (Hrt m eq_refl S).
+      assert (S2 : acl_skip md (acl_update General (acl_edit md rm) m) = false).
+      { unfold acl_skip. destruct md; [reflexivity|]. now rewrite acl_has_update. }
+      rewrite S2, non_acl_rebuilt, with_extras_twice, acl_update_twice.
+      rewrite (acl_update_ext General (fun l => acl_edit md rm (acl_edit md rm l)) (acl_edit md rm) m Hed). reflexivity.
+  - assert (E : cmd_acl md rm e = e) by (unfold cmd_acl; now rewrite P). now rewrite !E.
+  - assert (E : cmd_acl md rm e = e) by (unfold cmd_acl; now rewrite P). now rewrite !E.
+Qed.
+
+(* (ii) holds for every -m / -x combination *)
+Lemma contains_default (d : bool) : contains (if d then 1 else 0) 1 = d.
+Proof. destruct d; reflexivity. Qed.
+Lemma spec_match_spec r s :
+  spec_match r (spec_ace s) = Bool.eqb (as_default r) (as_default s) && owner_eqb (as_owner r) (as_owner s).
+Proof. unfold spec_match, spec_ace. cbv [a_flags a_owner]. now rewrite contains_default. Qed.
+Lemma eqb_bool_eq a b : Bool.eqb a b = true -> a = b.
+Proof. destruct a, b; cbn; congruence. Qed.
+Lemma spec_match_same_class r s : spec_match r (spec_ace s) = true -> forall a, spec_match r a = spec_match s a.
+Proof.
+  rewrite spec_match_spec. intros H a. apply andb_true_iff in H. destruct H as [Hd Ho].
+  apply eqb_bool_eq in Hd. apply owner_eqb_eq in Ho. unfold spec_match. now rewrite Hd, Ho.
+Qed.
+Lemma spec_match_other_class r s a :
+  spec_match r (spec_ace s) = false -> spec_match s a = true -> spec_match r a = false.
+Proof.
+  rewrite spec_match_spec. intros H Hs. destruct (spec_match r a) eqn:Hr; [|reflexivity].
+  unfold spec_match in Hs, Hr. apply andb_true_iff in Hs, Hr. destruct Hs as [Sd So], Hr as [Rd Ro].
+  apply eqb_bool_eq in Sd, Rd. apply owner_eqb_eq in So, Ro.
+  assert (E1 : Bool.eqb (as_default r) (as_default s) = true) by (rewrite Sd, Rd; destruct (contains (a_flags a) 1); reflexivity).
+  assert (E2 : owner_eqb (as_owner r) (as_owner s) = true) by (apply owner_eqb_eq; congruence).
+  rewrite E1, E2 in H. discriminate.
+Qed.
+Lemma set_perm_twice a p : set_perm (set_perm a p) p = set_perm a p.
+Proof. reflexivity. Qed.
+Lemma spec_ace_set_perm s : set_perm (spec_ace s) (a_perm (spec_ace s)) = spec_ace s.
+Proof. reflexivity. Qed.
+Lemma acl_modify_idem s l : acl_modify s (acl_modify s l) = acl_modify s l.
+Proof.
+  induction l as [|a l IH].
+  - change (acl_modify s []) with [spec_ace s]. rewrite acl_modify_cons, spec_match_self.
+    now rewrite spec_ace_set_perm.
+  - rewrite acl_modify_cons. destruct (spec_match s a) eqn:E.
+    + rewrite acl_modify_cons, spec_match_set_perm, E. cbv [a_perm set_perm]. reflexivity.
+    + rewrite acl_modify_cons, E. now rewrite IH.
+Qed.
+Lemma acl_modify_filter_commute s r l : spec_match r (spec_ace s) = false ->
+  filter (fun a => negb (spec_match r a)) (acl_modify s l)
+  = acl_modify s (filter (fun a => negb (spec_match r a)) l).
+Proof.
+  intros C. induction l as [|a l IH].
+  - change (acl_modify s []) with [spec_ace s]. cbn [filter]. now rewrite C.
+  - rewrite acl_modify_cons. destruct (spec_match s a) eqn:E; cbn [filter].
+    + rewrite spec_match_set_perm, (spec_match_other_class r s a C E). cbn [negb].
+      now rewrite acl_modify_cons, E.
+    + destruct (spec_match r a); cbn [negb]; [exact IH|]. now rewrite acl_modify_cons, E, IH.
+Qed.
+Lemma filter_ext_eq {A} (f g : A -> bool) l : (forall x, f x = g x) -> filter f l = filter g l.
+Proof. intros H. induction l as [|a l IH]; cbn; [reflexivity|]. now rewrite H, IH. Qed.
+Lemma acl_edit_idem md rm l : acl_edit md rm (acl_edit md rm l) = acl_edit md rm l.
+Proof.
+  unfold acl_edit. destruct md as [s|], rm as [r|].
+  - destruct (spec_match r (spec_ace s)) eqn:C.
+    + assert (X : forall k, filter (fun a => negb (spec_match r a)) k = filter (fun a => negb (spec_match s a)) k).
+      { intros k. apply filter_ext_eq. intros a. now rewrite (spec_match_same_class r s C a). }
+      rewrite !X. rewrite acl_modify_frame. apply filter_idem.
+    + rewrite !(acl_modify_filter_commute s r _ C). rewrite acl_modify_idem. now rewrite filter_idem.
+  - apply acl_modify_idem.
+  - apply filter_idem.
+  - reflexivity.
+Qed.
+
+Section Idem.
+Variable sel : bytes -> bool.
+
+Lemma map_entries_fix c : forall es es',
+  (forall e, In e es -> entry_idem c e) ->
+  map_entries (cmd_transformer c sel) es = Ok es' ->
+  Forall (fun e' => cmd_transformer c sel e' = Ok (Some e')) es'.
+Proof.
+  induction es as [|e r IH]; intros es' Hid H.
+  - inversion H. constructor.
+  - apply map_entries_cons in H. destruct H as (o & r' & Hf & Hr & ->).
+    assert (Hr' : Forall (fun e' => cmd_transformer c sel e' = Ok (Some e')) r') by (apply (IH _ (fun e0 H0 => Hid e0 (or_intror H0)) Hr)).
+    destruct o as [e'|]; cbn [olist app]; [|exact Hr']. constructor; [|exact Hr'].
+    rewrite transformer_unfold in *. destruct (touched sel c e) eqn:T.
+    + assert (T' : touched sel c e' = true) by (unfold touched in *; now rewrite (cmd_entry_name _ _ _ Hf)).
+      rewrite T'. apply (Hid e (or_introl eq_refl)). exact Hf.
+    + inversion Hf; subst e'. now rewrite T.
+Qed.
+Lemma map_entries_of_fix f es : Forall (fun e => f e = Ok (Some e)) es -> map_entries f es = Ok es.
+Proof. induction 1 as [|e r He _ IH]; [reflexivity|]. cbn [map_entries]. now rewrite He, IH. Qed.
+Lemma transform_app keep pw f : forall a b a' b',
+  transform keep pw f a = Ok a' -> transform keep pw f b = Ok b' -> transform keep pw f (a ++ b) = Ok (a' ++ b').
+Proof.
+  induction a as [|it a IH]; intros b a' b' Ha Hb.
+  - inversion Ha. exact Hb.
+  - cbn [transform app] in *. inv_bind Ha. inv_bind Hk. inversion Hk0; subst a'.
+    rewrite Hb0. cbn [bind]. rewrite (IH _ _ _ Hb1 Hb). cbn [bind]. now rewrite app_assoc.
+Qed.
+Lemma transform_normals_fix keep pw f es :
+  Forall (fun e => f e = Ok (Some e)) es -> transform keep pw f (map Normal es) = Ok (map Normal es).
+Proof.
+  induction 1 as [|e r He _ IH]; [reflexivity|]. cbn [map transform transform_item]. rewrite He. cbn [bind].
+  now rewrite IH.
+Qed.
+
+Theorem transform_idem keep pw c : forall a a',
+  (forall e, In e (entries a) -> entry_idem c e) ->
+  transform keep pw (cmd_transformer c sel) a = Ok a' ->
+  transform keep pw (cmd_transformer c sel) a' = Ok a'.
+Proof.
+  induction a as [|it a IH]; intros a' Hid H.
+  - inversion H. reflexivity.
+  - cbn [transform] in H. inv_bind H. inv_bind Hk. inversion Hk0; subst a'. clear Hk0.
+    assert (Hida : forall e, In e (entries a) -> entry_idem c e).
+    { intros e He. apply Hid. rewrite entries_cons, in_app_iff. auto. }
+    assert (Hidi : forall e, In e (item_entries it) -> entry_idem c e).
+    { intros e He. apply Hid. rewrite entries_cons, in_app_iff. auto. }
+    apply transform_app; [|apply (IH _ Hida Hb0)].
+    destruct it as [e|h x es]; cbn [transform_item item_entries] in *.
+    + inv_bind Hb.
+      assert (Hm : map_entries (cmd_transformer c sel) [e] = Ok (olist v1)).
+      { cbn [map_entries]. rewrite Hb1. cbn [bind]. destruct v1; reflexivity. }
+      apply (map_entries_fix c _ _ Hidi) in Hm.
+      destruct v1 as [e'|]; inversion Hk; [|reflexivity].
+      apply Forall_inv in Hm. cbn [transform transform_item]. rewrite Hm. reflexivity.
+    + destruct (negb (sh_cipher h =? 0) && negb pw) eqn:C; [discriminate|]. inv_bind Hb.
+      pose proof (map_entries_fix c _ _ Hidi Hb1) as Hfix.
+      destruct keep; inversion Hk.
+      * cbn [transform transform_item]. rewrite C, (map_entries_of_fix _ _ Hfix). reflexivity.
+      * now apply transform_normals_fix.
+Qed.
+
+(* IDEMPOTENCE: repeating the same edit changes nothing further *)
+Theorem idempotent keep pw c nf a a' :
+  (forall e, In e (entries a) -> entry_idem c e) ->
+  run_cmd keep pw c nf sel a = Ok a' -> run_cmd keep pw c nf sel a' = Ok a'.
+Proof.
+  intros Hid H. destruct (run_cmd_cases sel keep pw c nf a a' H) as [(Hn & Hz & Ha)|(Hn & Ht)]; [subst a'; exact H|].
+  unfold run_cmd. rewrite Hn. exact (transform_idem keep pw c a a' Hid Ht).
+Qed.
+End Idem.
+
+(* chmod, chown, xattr set/remove, strip, delete: unconditionally *)
+Definition acl_free (c : cmd) : bool := match c with CAcl _ _ | CMigrate => false | _ => true end.
+Lemma entry_idem_acl_free c e : acl_free c = true -> entry_idem c e.
+Proof.
+  destruct c; cbn; intros H; try discriminate;
+    auto using entry_idem_chmod, entry_idem_chown, entry_idem_xattr, entry_idem_strip, entry_idem_delete.
+Qed.
+
+(* ---- extra chunks survive ------------------------------------------------------------------------------- *)
+(* chmod, chown, xattr, (delete: survivors): the extra chunk list is untouched; acl set / migrate:
+   every extra chunk that is not an ACL chunk survives, in order; strip: strip_keeps_exactly *)
+Lemma extras_survive_entry c e e' : cmd_entry c e = Ok (Some e') ->
+  match c with
+  | CChmod _ | CChown _ _ | CXattr _ _ | CDelete => le_extras e' = le_extras e
+  | CAcl _ _ | CMigrate => non_acl (le_extras e') = non_acl (le_extras e)
+  | CStrip o => le_extras e' = filter (kept_by o) (le_extras e)
+  end.
+Proof.
+  destruct c as [m|u g|s r|md rm|o| |]; cbn [cmd_entry]; intros H.
+  - inversion H. reflexivity.
+  - inversion H. reflexivity.
+  - inversion H. apply (xattr_attrs s r e).
+  - inversion H. apply (acl_attrs md rm e).
+  - inversion H. reflexivity.
+  - inv_bind H. inversion Hk; subst. apply (migrate_attrs _ _ Hb).
+  - discriminate.
+Qed.
+
+(* ---- idempotence for every command ------------------------------------------------------------------------ *)
+(* for acl set / migrate: the regrouped ACL chunks of the entry read back as the map that was
+   written (print/parse round trip of the ACE text codec; true for every ACE the CLI prints, C15) *)
+Definition acl_reads_back (c : cmd) (e : lentry) : Prop :=
+  match c with
+  | CMigrate => forall m, acl_parse (le_extras e) = Ok m ->
+      acl_parse (acl_chunks m ++ non_acl (le_extras e)) = Ok m
+  | CAcl md rm => forall m, acl_parse (le_extras e) = Ok m -> acl_skip md m = false ->
+      acl_parse (acl_chunks (acl_update General (acl_edit md rm) m) ++ non_acl (le_extras e))
+      = Ok (acl_update General (acl_edit md rm) m)
+  | _ => True
+  end.
+Lemma entry_idem_all c e : acl_reads_back c e -> entry_idem c e.
+Proof.
+  destruct c as [m|u g|s r|md rm|o| |]; cbn [acl_reads_back]; intros H.
+  - apply entry_idem_chmod.
+  - apply entry_idem_chown.
+  - apply entry_idem_xattr.
+  - apply entry_idem_acl; [exact H|apply acl_edit_idem].
+  - apply entry_idem_strip.
+  - apply entry_idem_migrate. exact H.
+  - apply entry_idem_delete.
+Qed.
+Theorem idempotent_all sel keep pw c nf a a' :
+  (forall e, In e (entries a) -> acl_reads_back c e) ->
+  run_cmd keep pw c nf sel a = Ok a' -> run_cmd keep pw c nf sel a' = Ok a'.
+Proof. intros H. apply idempotent. intros e He. apply entry_idem_all. auto. Qed.
+Theorem idempotent_acl_free sel keep pw c nf a a' : acl_free c = true ->
+  run_cmd keep pw c nf sel a = Ok a' -> run_cmd keep pw c nf sel a' = Ok a'.
+Proof. intros H. apply idempotent. intros e _. now apply entry_idem_acl_free. Qed.
+
+(* the read-back premise cannot be dropped: `acl set -m u:alice:w -x u:alice` on an entry whose
+   general group comes first and empties — the emptied group is written as a bare faCl chunk,
+   is not seen when the entry is read again, and is re-created at the end (confirmed on the CLI) *)
+Definition wit_entry : lentry :=
+  {| le_name := lit "f"; le_kind := 0; le_hdr := lit "0:0:0"; le_content := lit "6869";
+     le_ctime := None; le_mtime := None; le_atime := None; le_perm := None; le_xattrs := [];
+     le_extras := [mk FACL []; mk FACE (lit ":u:alice:allow:r"); mk FACL (lit "linux"); mk FACE (lit ":u:bob:allow:r")] |}.
+Definition wit_cmd : cmd :=
+  CAcl (Some {| as_default := false; as_owner := User (lit "alice"); as_perms := Some [lit "w"] |})
+       (Some {| as_default := false; as_owner := User (lit "alice"); as_perms := None |}).
+Lemma idempotent_acl_refuted :
+  exists a a', run_cmd true false wit_cmd 1 (fun _ => true) a = Ok a' /\
+               run_cmd true false wit_cmd 1 (fun _ => true) a' <> Ok a'.
+Proof.
+  exists [Normal wit_entry].
+  eexists. split; [vm_compute; reflexivity|]. vm_compute. intros H. discriminate H.
+Qed.
+
+(* premises are satisfiable: a two-item archive, chmod on one name *)
+Definition ex_entry (n : bytes) : lentry :=
+  {| le_name := n; le_kind := 0; le_hdr := lit "0:0:0"; le_content := [];
+     le_ctime := Some 5; le_mtime := None; le_atime := None;
+     le_perm := Some {| p_uid := 1; p_uname := lit "u"; p_gid := 2; p_gname := lit "g"; p_mode := 2541 |};
+     le_xattrs := [{| x_name := lit "user.a"; x_value := lit "one" |}]; le_extras := [mk (lit "abCd") (lit "x")] |}.
+Definition ex_archive : archive :=
+  [Normal (ex_entry (lit "a")); Solid {| sh_codec := 0; sh_cipher := 0; sh_mode := 0 |} [mk (lit "qqQq") []] [ex_entry (lit "b"); ex_entry (lit "c")]].
+Example ex_run_ok :
+  exists a', run_cmd true false (CChmod (MEqual 2 0)) 1 (fun n => bytes_eqb n (lit "b")) ex_archive = Ok a'
+             /\ a' <> ex_archive.
+Proof. eexists. split; [vm_compute; reflexivity|]. vm_compute. intros H. discriminate H. Qed.
+Example ex_reads_back : acl_reads_back CMigrate wit_entry.
+Proof. cbn [acl_reads_back]. intros m H. vm_compute in H. inversion H. vm_compute. reflexivity. Qed.
